@@ -332,6 +332,29 @@ def _ood_failures(limit=None):
                     if after > before and t not in listed:
                         fails.append(dict(input=hist + '; redo-ood; redo-ifchange ' + t, observed='redo-ood listed %s; %s.do ran' % (sorted(listed), t),
                                           clause='redo-ood lists every known target that a following redo-ifchange of it rebuilds'))
+        # a dependency shared by two targets, rebuilt through ONE of them: src <- lib <- {app, tool}; full build; edit src;
+        # redo-ifchange <one>; redo-ood must list exactly the other (lib is up to date again).  Every name order.
+        for lib, one, other in itertools.permutations(['a', 'm', 'z']):
+            if limit is not None and n >= limit:
+                return fails, n
+            n += 1
+            proj = os.path.join(work, 'd%d' % n)
+            os.makedirs(proj)
+            open(os.path.join(proj, lib + '.do'), 'w').write('redo-ifchange src\ncat src\n')
+            for t in (one, other):
+                open(os.path.join(proj, t + '.do'), 'w').write('redo-ifchange %s\necho %s; cat %s\n' % (lib, t, lib))
+            open(os.path.join(proj, 'src'), 'w').write('v1\n')
+            if run(['redo', one, other], proj).returncode != 0:
+                continue
+            open(os.path.join(proj, 'src'), 'w').write('v2 longer\n')
+            run(['redo-ifchange', one], proj)
+            got = sorted(l for l in run(['redo-ood'], proj).stdout.split() if l)
+            hist = 'src <- %s <- {%s, %s}; redo %s %s; edit src; redo-ifchange %s; redo-ood' % (lib, one, other, one, other, one)
+            if got != [other]:
+                fails.append(dict(input=hist, observed='redo-ood listed %s, exactly [%r] is out of date' % (got, other),
+                                  label='ood.lists_every_definitely_stale_target' if other not in got else 'ood.lists_only_targets',
+                                  clause='after a partial rebuild redo-ood lists the dependents that were not rebuilt, and only them'))
+            shutil.rmtree(proj, ignore_errors=True)
     finally:
         shutil.rmtree(work, ignore_errors=True)
     return fails, n
